@@ -34,6 +34,12 @@ pub fn format_violations(state: &[String], snaps: &BTreeMap<u32, Vec<Obs>>) -> V
                 bad.push(("format:hunk-numbering".into(), json!({"band": bn, "expected": i, "found": k})));
                 break;
             }
+            // … each in the subdirectory named by its number divided by 10000, five digits
+            let sub = k[prefix.len()..].split('/').next().unwrap_or("");
+            if sub != format!("{:05}", n / 10000) {
+                bad.push(("format:hunk-subdirectory".into(), json!({"band": bn, "hunk": k, "expected_subdir": format!("{:05}", n / 10000)})));
+                break;
+            }
         }
         let mut all_entries: Vec<DecEntry> = Vec::new();
         for (i, (k, v)) in hunks.iter().enumerate() {
@@ -120,8 +126,39 @@ pub fn format_violations(state: &[String], snaps: &BTreeMap<u32, Vec<Obs>>) -> V
     bad
 }
 
+/// Directed: one version with MORE THAN 10000 index hunks (one entry per hunk), so that the second index
+/// subdirectory and six-digit-plus hunk numbers are exercised.  Real code + independent reader only (no model run).
+fn big_index(seed: u64, report: &mut Report) {
+    let work = tempfile::tempdir().unwrap();
+    let src = work.path().join("src");
+    std::fs::create_dir(&src).unwrap();
+    let n = 10_003 + (seed % 7) as usize;
+    for i in 0..n {
+        std::fs::write(src.join(format!("e{i:05}")), b"").unwrap();
+    }
+    std::fs::create_dir(src.join("zdir")).unwrap();
+    std::fs::write(src.join("zdir/small1"), b"abc").unwrap();
+    std::fs::write(src.join("zdir/small2"), b"defg").unwrap();
+    let arch = work.path().join("arch");
+    crate::real::create_archive(&arch);
+    let p = crate::real::BackupParams { max_entries_per_hunk: 1, max_block_size: 64, small_file_cap: 16, owner: true, exclude: vec![] };
+    let r = crate::real::real_backup(&arch, &src, &p, crate::icept::IceptConfig::default());
+    let case = json!({"directed": "big-index", "entries": n + 4, "max_entries_per_hunk": 1});
+    report.case(&format!("big-index/{n}"), true);
+    report.hit("directed:big-index(>10000 hunks)");
+    if !r.result.starts_with("result ok") {
+        report.oracle_fail("format:big-index-backup-failed", case, "a backup with more than 10000 index hunks did not succeed", json!(crate::compare::trunc(&r.result)));
+        return;
+    }
+    let (state, _) = crate::absarch::abstract_archive(&arch);
+    for (sig, what) in format_violations(&state, &BTreeMap::new()) {
+        report.oracle_fail(&sig, case.clone(), "the independent reader of the documented format found a violation", what);
+    }
+}
+
 pub fn run(tier: &str, seed: u64, report: &mut Report) {
     let thorough = tier == "thorough";
+    big_index(seed, report);
     let n_hist = if thorough { 300 } else { 25 };
     for h in 0..n_hist {
         let case_seed = seed.wrapping_mul(433494437).wrapping_add(h as u64);
